@@ -388,10 +388,12 @@ func (p *ProofD) ChallengeContribution(pk *gabikeys.PublicKey) ([]*big.Int, erro
 	}
 
 	if p.RangeProofs != nil {
-		if p.cachedRangeStructures == nil {
-			if err := p.reconstructRangeProofStructures(pk); err != nil {
-				return nil, err
-			}
+		// The structures follow from the descriptors carried by the range proofs and from the public
+		// key, so they are rebuilt on every call: a ProofD value may have been decoded into again,
+		// or be verified against another key, since they were cached (a stale cache would check the
+		// range proofs against the statements of the previous message).
+		if err := p.reconstructRangeProofStructures(pk); err != nil {
+			return nil, err
 		}
 		// need stable attribute order for rangeproof contributions, so determine max undisclosed attribute
 		maxAttribute := 0
